@@ -580,22 +580,34 @@ func (l *Lexer) SkipStreamEOL() error {
 // ReadBytes reads exactly n bytes from the underlying reader.
 // Used for reading binary stream data where tokenization is not appropriate.
 func (l *Lexer) ReadBytes(n int) ([]byte, error) {
-	data := make([]byte, n)
-	totalRead := 0
+	if n < 0 {
+		return nil, fmt.Errorf("invalid byte count: %d", n)
+	}
 
-	for totalRead < n {
-		bytesRead, err := l.reader.Read(data[totalRead:])
-		totalRead += bytesRead
+	// Read in bounded pieces and grow with the data actually present, so that a
+	// bogus length (e.g. /Length 9223372036854775807) cannot force a huge allocation.
+	const maxPiece = 1 << 20
+	first := n
+	if first > maxPiece {
+		first = maxPiece
+	}
+	data := make([]byte, 0, first)
+
+	for len(data) < n {
+		want := n - len(data)
+		if want > maxPiece {
+			want = maxPiece
+		}
+		piece := make([]byte, want)
+		bytesRead, err := io.ReadFull(l.reader, piece)
+		data = append(data, piece[:bytesRead]...)
 		l.pos += int64(bytesRead)
 
-		if err == io.EOF && totalRead < n {
-			return data[:totalRead], fmt.Errorf("unexpected EOF: expected %d bytes, got %d", n, totalRead)
+		if err == io.EOF || err == io.ErrUnexpectedEOF {
+			return data, fmt.Errorf("unexpected EOF: expected %d bytes, got %d", n, len(data))
 		}
-		if err != nil && err != io.EOF {
-			return data[:totalRead], err
-		}
-		if err == io.EOF {
-			break
+		if err != nil {
+			return data, err
 		}
 	}
 
